@@ -16,7 +16,8 @@ RULE = ("cases = (decimal places 3..9, list of <=30 calls over tool_on/off, "
         "power_on/off, coolant, tool_change, every halt mode (S/R in either "
         "case), pause/stop/wait/emergency_halt, moves/rapids/*_absolute/probes "
         "with F/S/E/A/P words, set_axis/auto_home with extra axes, mode/unit/"
-        "plane setters, temperatures, with values from the grid {0,0.5,1,60,"
+        "plane setters, temperatures, a move hook that rewrites F/S and returns a "
+        "new parameter dict (installed/removed along the way), with values from the grid {0,0.5,1,60,"
         "100,1000,12345.678} plus random finite values); non-trivial = >=3 "
         "different state-changing call kinds and a value overwritten through a "
         "second path (S via a move/probe after tool_on/power_on, F via probe "
@@ -44,7 +45,31 @@ def run_case(case, cl=None):
     s = Session(dp=case["dp"])
     model = sh.InterlockModel()
     kinds = set()
+
+    def rewriting_hook(origin, target, params, state):
+        """A feed limiter / power scaler that returns a NEW parameter dict."""
+        from gscrib.params import ParamsDict
+        new = ParamsDict(params)
+        if new.get("F") is not None:
+            new["F"] = min(new["F"], 600.0)
+        if new.get("S") is not None:
+            new["S"] = new["S"] / 2.0
+        new["Q"] = 3.25
+        return new
+
+    hooked = bool(case.get("hook0"))
+    if hooked:
+        s.g.add_hook(rewriting_hook)
     for i, call in enumerate(case["calls"]):
+        if call["op"] == "hook":
+            s.g.remove_hook(rewriting_hook)
+            hooked = bool(call["on"])
+            if hooked:
+                s.g.add_hook(rewriting_hook)
+            continue
+        if hooked and call["op"] in ("move", "move_absolute") and \
+                ({"F", "S"} & set(call.get("kw", {}))):
+            cl.add("move_with_rewriting_hook")
         before_tool = model.tool
         try:
             apply_call(s.g, call)
@@ -73,7 +98,7 @@ def run_case(case, cl=None):
 def nontrivial(cl):
     return "three_kinds" in cl and bool(cl & {
         "S_overwritten_by_move_while_running", "F_via_probe_or_absolute",
-        "temperature_via_halt"})
+        "temperature_via_halt", "move_with_rewriting_hook"})
 
 
 def replay(case):
@@ -82,9 +107,11 @@ def replay(case):
 
 def strategy(n):
     from hypothesis import strategies as st
+    hook = st.booleans().map(lambda b: {"op": "hook", "on": b})
     return st.fixed_dictionaries({
-        "dp": st.integers(3, 9),
-        "calls": st.lists(sh.call_strategy(), min_size=1, max_size=n)})
+        "dp": st.integers(3, 9), "hook0": st.sampled_from([False, False, True]),
+        "calls": st.lists(st.one_of(sh.call_strategy(), sh.call_strategy(), sh.call_strategy(),
+                                    sh.call_strategy(), hook), min_size=1, max_size=n)})
 
 
 def run_shard(ctx):
